@@ -30,5 +30,17 @@ IsIdent(s) == /\ Len(s) > 0 /\ IsLetter(s[1])
 RECURSIVE Join(_)
 Join(s) == IF s = <<>> THEN "" ELSE s[1] \o Join(Tail(s))
 
+(* strings.NewReplacer("go-","", "-go","", "-","", "_","", ".","", "@","", "+","", "~","") of     *)
+(* internal/registry/package.go: left to right, at each position the first pattern (in         *)
+(* argument order) that matches is removed, otherwise the character is kept                    *)
+StartsWith(s, p) == Len(s) >= Len(p) /\ SubSeq(s, 1, Len(p)) = p
+RECURSIVE Strip(_)
+Strip(s) == IF s = <<>> THEN <<>>
+            ELSE IF StartsWith(s, <<"g","o","-">>) \/ StartsWith(s, <<"-","g","o">>) THEN Strip(SubSeq(s, 4, Len(s)))
+            ELSE IF Head(s) \in {"-", "_", ".", "@", "+", "~"} THEN Strip(Tail(s))
+            ELSE <<Head(s)>> \o Strip(Tail(s))
+(* what uniqueName concatenates for one path component *)
+SanComp(c) == Join(ToLower(Strip(c)))
+
 Cs(str) == str   \* documentation only: values of this shape are already sequences
 =============================================================================
